@@ -287,6 +287,46 @@ def run(ctx: Any, prog: Program) -> None:
                       'only under that fold come back as the first spelling, and the table loses an entry', func=f'BSP.{wname}', text=label)
     if n19 < 1 or n19h < 15:
         raise AnalysisError(f'L19: de-duplicating writers found: {n19} try/except tables, {n19h} find_or_insert helpers (BSP._lmp_write_texinfo and 20+ helper calls confirmed by hand)')
+    # ---- L20: formats that come from the per-game layout table are consulted alike on both sides -----------------------------------------
+    # `self.lump_layout[KEY]` is how the record width follows the BSP flavour (Chaos v25 widens indexes).  A side that takes the table entry
+    # only under a further condition (`layout[K] if vers >= 12 else '<H'`) while the other side always takes it disagrees for the flavours
+    # in between.
+    ctx.rule('C11.L20', 'reader and writer take a record format from the layout table under the same conditions', floor=10)
+    lay: Dict[str, Dict[str, Set[Tuple[str, ...]]]] = {}
+    lay_node: Dict[Tuple[str, str], ast.AST] = {}
+    for mname, mfn in bsp.methods('BSP').items():
+        side = 'w' if '_write' in mname or mname == 'save' else 'r'
+        for sub in ast.walk(mfn):
+            if isinstance(sub, ast.Subscript) and dotted(sub.value) == 'self.lump_layout' and isinstance(sub.slice, ast.Constant) and isinstance(sub.slice.value, str):
+                conds: List[str] = []
+                ch, par = sub, bsp.parents.get(sub)
+                stmt_ = None
+                while par is not None and par is not mfn:
+                    if isinstance(par, ast.IfExp) and ch is not par.test:
+                        conds.append(('' if ch is par.body else 'not ') + U(par.test))
+                    if isinstance(par, ast.stmt) and stmt_ is None:
+                        stmt_ = par
+                    ch, par = par, bsp.parents.get(par)
+                # `x = layout[K]` as one branch of an if/else that gives the same local another format
+                if isinstance(stmt_, ast.Assign) and len(stmt_.targets) == 1 and isinstance(stmt_.targets[0], ast.Name):
+                    holder = bsp.parents.get(stmt_)
+                    if isinstance(holder, ast.If):
+                        other = holder.orelse if stmt_ in holder.body else holder.body
+                        def is_fmt(v: ast.AST) -> bool:
+                            return (isinstance(v, ast.Constant) and isinstance(v.value, str)) or (isinstance(v, ast.Call) and (dotted(v.func) or '').endswith('Struct'))
+                        if stmt_.value is sub and any(isinstance(o, ast.Assign) and is_fmt(o.value) and any(isinstance(t, ast.Name) and t.id == stmt_.targets[0].id for t in o.targets) for o in other):
+                            conds.append(('' if stmt_ in holder.body else 'not ') + U(holder.test))
+                lay.setdefault(sub.slice.value, {}).setdefault(side, set()).add(tuple(conds))
+                lay_node.setdefault((sub.slice.value, side), sub)
+    for key_, sides in sorted(lay.items()):
+        if 'r' in sides and 'w' in sides:
+            r_c, w_c = sides['r'], sides['w']
+            diff = sorted(r_c ^ w_c)
+            ctx.check('C11.L20', not diff, bsp, lay_node[(key_, 'w')], f"the layout entry '{key_}' is taken by the readers under {sorted(r_c)} and by the writers under {sorted(w_c)}: for the BSP flavours where that condition "
+                      'decides, one side uses the table width and the other does not, so the records written are not the records read', func='BSP', text=f"layout['{key_}'] consulted alike")
+        else:
+            ctx.shape('C11.L20', False, bsp, lay_node[(key_, 'r' if 'r' in sides else 'w')], f"layout entry '{key_}' is used by only one side", func='BSP', text=f"layout['{key_}'] has both sides")
+
     # ---- L1 / L2 -------------------------------------------------------------------------------------------
     for v in views:
         if v in NO_WIRE:
@@ -690,6 +730,7 @@ def run(ctx: Any, prog: Program) -> None:
 
 
 MUTANTS = [
+    {'id': 'prop_leaf_width_by_prop_version', 'file': 'bsp.py', 'find': "        prop_lump.write(write_array(self.lump_layout['STATICPROPLEAF'], leaf_array))", 'replace': "        prop_lump.write(write_array(self.lump_layout['STATICPROPLEAF'] if vers_num >= 12 else '<H', leaf_array))", 'expect': 'C11.L20'},
     {'id': 'prop_model_names_casefolded', 'file': 'bsp.py', 'find': "        add_model = find_or_insert(model_list, identity)\n", 'replace': "        add_model = find_or_insert(model_list, str.casefold)\n", 'expect': 'C11.L19'},
     {'id': 'ok_prop_model_names_lambda_identity', 'file': 'bsp.py', 'find': "        add_model = find_or_insert(model_list, identity)\n", 'replace': "        add_model = find_or_insert(model_list, lambda name: name)\n", 'expect': None},
     {'id': 'texdata_deduplicated_by_material', 'file': 'bsp.py', 'find': "            try:\n                ind = texdata_ind[tdat]\n            except KeyError:\n                ind = texdata_ind[tdat] = next_ind", 'replace': "            mat_key = tdat.mat.casefold()\n            try:\n                ind = texdata_ind[mat_key]\n            except KeyError:\n                ind = texdata_ind[mat_key] = next_ind", 'expect': 'C11.L19'},
